@@ -321,6 +321,15 @@ class Pragma(Instruction):
         super().__init__()
         self._program_version = version
 
+    @property
+    def cost(self) -> int:
+        """The pragma directive is not an opcode: it does not have execution cost.
+
+        Returns:
+            0
+        """
+        return 0
+
     def __str__(self) -> str:
         return f"#pragma version {self._program_version}"
 
@@ -1856,6 +1865,15 @@ class BNZ(InstructionWithLabel):
 
 class Label(InstructionWithLabel):
     """represents a simple label indicating start of the section or possible jump target"""
+
+    @property
+    def cost(self) -> int:
+        """A label is not an opcode: it does not have execution cost.
+
+        Returns:
+            0
+        """
+        return 0
 
     def __str__(self) -> str:
         return f"{self._label}:"
